@@ -257,12 +257,13 @@ fn random_args(rng: &mut Rng, n: usize) -> Vec<Arg> {
         })
         .collect();
     for _ in 0..rng.below(4) {
-        let ty = match rng.below(3) {
+        let ty = match rng.below(4) {
             0 => Ty::Prim("STRING"),
             1 => Ty::Ref(rng.below(n)),
+            2 => Ty::Prim("BINARY"),
             _ => Ty::Prim("INTEGER"),
         };
-        let body = matches!(ty, Ty::Ref(_));
+        let body = matches!(ty, Ty::Ref(_) | Ty::Prim("BINARY"));
         args.push(Arg { safety: random_annot(rng), legacy: if rng.chance(1, 2) { 1 + rng.below(6) as u8 } else { 0 }, ty, body });
     }
     args
